@@ -200,4 +200,25 @@ theorem count_q_concretize (segs : List Seg) (h : NoQ segs) :
       have : x.count '?' = 0 := List.count_eq_zero.mpr hs
       simp [segText, phs, List.count_append, this]
 
+/-- the `?` rendering of segments without `$` in their literal text contains no `$` at all -/
+theorem noDollar_concretize_qmark (a : List Seg) (hnd : NoDollar a) : '$' ∉ concretize .qmark a := by
+  induction a with
+  | nil => simp [concretize]
+  | cons s r ih =>
+    rw [concretize_cons]
+    have hs := hnd s (by simp)
+    have hr := ih (NoDollar.tail hnd)
+    intro hm
+    rcases List.mem_append.1 hm with h | h
+    · cases s with
+      | lit t => exact hs (by simpa [segText] using h)
+      | quoted t =>
+        simp only [segText, List.mem_cons, List.mem_append, List.mem_singleton] at h
+        rcases h with h | h | h
+        · exact absurd h (by decide)
+        · exact hs h
+        · exact absurd h (by decide)
+      | ph n => simp [segText, phText] at h
+    · exact hr h
+
 end Gorm.Bind
